@@ -632,3 +632,43 @@ CONTRACTS["scale.TimeScale.ticks"] = {
         ("on_whole_seconds", "forall(lambda k: implies(0 <= k < len(result), us(result[k]) % 1000000 == 0))"),
     ],
 }
+
+
+# ---------------------------------------------------------------------------------------------------------------------
+# C14 (time part): TimeScale.nice(interval) for a GIVEN calendar interval object (the branch with skip <= 1).  Which
+# interval a tick count leads to is tickMethod's contract; floor / ceil of the interval object are summarised by
+# contracts/d3time.FLOOR_CEIL_SUMMARY (the clauses proved per unit).  Not under contract: the skip > 1 branch
+# (time_nice_floor / time_nice_ceil loop until a non-skipped boundary is found).
+# ---------------------------------------------------------------------------------------------------------------------
+from contracts.d3time import FLOOR_CEIL_SUMMARY, interval_setup  # noqa: E402
+
+
+def _setup_nice(unit):
+    def setup(E, P, env):
+        outs = []
+        for (p, e) in _setup_ticks(E, P, env):
+            tab = p.get(E.global_name(p, "d3_time", "d3_time"))
+            outs.append((p, dict(e, interval=tab[unit])))
+        return outs
+    return setup
+
+
+_NLO, _NHI = "min(us(self.domain()[0]), us(self.domain()[1]))", "max(us(self.domain()[0]), us(self.domain()[1]))"
+for _unit in ("second", "minute", "hour", "day", "week", "month", "year"):
+    CONTRACTS["scale.TimeScale.nice@%s" % _unit] = {
+        "props": ["C14"], "heap": True, "func_alias": "scale.TimeScale.nice", "setup": _setup_nice(_unit),
+        "params": {"t0": "dt", "t1": "dt", "skip": (lambda E, P, name: I(0))},
+        "requires": ["in_range_years(t0)", "in_range_years(t1)", "us(t0) != us(t1)"],
+        "modifies": [], "callee_contracts": FLOOR_CEIL_SUMMARY,
+        "ensures": [
+            ("never_inward", "%s <= %s and %s >= %s" % (_NLO, _TLO, _NHI, _THI)),
+            ("orientation_kept", "implies(us(t0) < us(t1), us(self.domain()[0]) < us(self.domain()[1])) and "
+                                 "implies(us(t0) > us(t1), us(self.domain()[0]) > us(self.domain()[1]))"),
+            # each end moves outward by less than one period of the interval (hence less than two tick steps)
+            ("less_than_one_period", "%s - %s < unit_len_at(interval, min(t0, t1)) and %s - %s < unit_len_at(interval, max(t0, t1))"
+             % (_TLO, _NLO, _NHI, _THI)),
+            # ... and lands on a boundary of the interval (aligned to the calendar as coarsely as the ticks)
+            ("aligned", "unit_boundary(interval, self.domain()[0]) and unit_boundary(interval, self.domain()[1])"),
+            ("returns_self", "result is self"),
+        ],
+    }
